@@ -539,6 +539,42 @@ func (u *Universe) NestedDanglingOps(rng *rand.Rand, repo, tag string) []*Op {
 	return ops
 }
 
+// LyingChildOps is a scripted history prefix: a manifest of a type the registry does not look into (its
+// bytes are no image manifest), an ordinary image, and a tagged index that lists the first - stated to be
+// an image manifest - in front of the second; then attempts to delete the second image and its layer.
+// Whatever the registry makes of the entry it cannot read, the tag still reaches the image behind it.
+func (u *Universe) LyingChildOps(rng *rand.Rand, repo, tag string) []*Op {
+	u.nonce++
+	mkBlob := func(what string) []byte { return []byte(fmt.Sprintf("%s of lying-child history %d", what, u.nonce)) }
+	var ops []*Op
+	odd := []byte(pick(rng, []string{`[1,2,3]`, `not json at all`, `"a string"`, `{"layers":7}`}) + fmt.Sprint(u.nonce))
+	ops = append(ops, &Op{Kind: "PushManifest", Repo: repo, Data: odd, MediaType: "application/vnd.example.thing+json"})
+	cfg, layer := mkBlob("config"), mkBlob("layer")
+	for _, b := range [][]byte{cfg, layer} {
+		ops = append(ops, &Op{Kind: "PushBlob", Repo: repo, Data: b, Digest: Digest(b), Size: int64(len(b)), MediaType: "application/octet-stream"})
+	}
+	mf := ocispec.Manifest{MediaType: MTImage, Config: desc("application/vnd.oci.image.config.v1+json", cfg), Layers: []ocispec.Descriptor{desc("application/octet-stream", layer)}}
+	mf.SchemaVersion = 2
+	img, _ := json.Marshal(mf)
+	ops = append(ops, &Op{Kind: "PushManifest", Repo: repo, Data: img, MediaType: MTImage})
+	stated := pick(rng, []string{MTImage, MTIndex})
+	children := []ocispec.Descriptor{desc(stated, odd), desc(MTImage, img)}
+	if rng.IntN(4) == 0 {
+		children[0], children[1] = children[1], children[0]
+	}
+	ix := ocispec.Index{MediaType: MTIndex, Manifests: children}
+	ix.SchemaVersion = 2
+	ixData, _ := json.Marshal(ix)
+	ops = append(ops, &Op{Kind: "PushManifest", Repo: repo, Tag: tag, Data: ixData, MediaType: MTIndex},
+		&Op{Kind: "GetTag", Repo: repo, Tag: tag},
+		&Op{Kind: "DeleteBlob", Repo: repo, Digest: Digest(layer)},
+		&Op{Kind: "DeleteManifest", Repo: repo, Digest: Digest(img)},
+		&Op{Kind: "DeleteBlob", Repo: repo, Digest: Digest(cfg)},
+		&Op{Kind: "GetManifest", Repo: repo, Digest: Digest(img)},
+		&Op{Kind: "GetBlob", Repo: repo, Digest: Digest(layer)})
+	return ops
+}
+
 // GenRead draws a read, resolve or listing.
 func (u *Universe) GenRead(rng *rand.Rand, m *Model, repo string, o GenOpts) *Op {
 	switch rng.IntN(13) {
